@@ -268,6 +268,81 @@ def f_epub_entity_refs(n):
     return "epub", bio.getvalue(), u
 
 
+# ---- equations: every OMML structure nested n levels deep through each of its operand slots (one equation per structure and slot).
+# The converter visits each node once; one that converts a slot twice costs 2^n for the structure nested through that slot.
+M_NS = "http://schemas.openxmlformats.org/officeDocument/2006/math"
+
+
+def _omml_nested(depth):
+    one = "<m:r><m:t>2</m:t></m:r>"
+    shapes = {
+        "d": "<m:d><m:e>{x}</m:e></m:d>", "f-num": "<m:f><m:num>{x}</m:num><m:den>{o}</m:den></m:f>", "f-den": "<m:f><m:num>{o}</m:num><m:den>{x}</m:den></m:f>",
+        "rad-e": "<m:rad><m:deg/><m:e>{x}</m:e></m:rad>", "rad-deg": "<m:rad><m:deg>{x}</m:deg><m:e>{o}</m:e></m:rad>",
+        "sSup-e": "<m:sSup><m:e>{x}</m:e><m:sup>{o}</m:sup></m:sSup>", "sSup-sup": "<m:sSup><m:e>{o}</m:e><m:sup>{x}</m:sup></m:sSup>",
+        "sSub-e": "<m:sSub><m:e>{x}</m:e><m:sub>{o}</m:sub></m:sSub>", "sSub-sub": "<m:sSub><m:e>{o}</m:e><m:sub>{x}</m:sub></m:sSub>",
+        "sSubSup-sub": "<m:sSubSup><m:e>{o}</m:e><m:sub>{x}</m:sub><m:sup>{o}</m:sup></m:sSubSup>", "sSubSup-sup": "<m:sSubSup><m:e>{o}</m:e><m:sub>{o}</m:sub><m:sup>{x}</m:sup></m:sSubSup>",
+        "sPre-sub": "<m:sPre><m:sub>{x}</m:sub><m:sup>{o}</m:sup><m:e>{o}</m:e></m:sPre>", "sPre-e": "<m:sPre><m:sub>{o}</m:sub><m:sup>{o}</m:sup><m:e>{x}</m:e></m:sPre>",
+        "func-e": "<m:func><m:fName><m:r><m:t>sin</m:t></m:r></m:fName><m:e>{x}</m:e></m:func>", "func-name": "<m:func><m:fName>{x}</m:fName><m:e>{o}</m:e></m:func>",
+        "nary-e": '<m:nary><m:naryPr><m:chr m:val="&#8721;"/></m:naryPr><m:sub>{o}</m:sub><m:sup>{o}</m:sup><m:e>{x}</m:e></m:nary>',
+        "nary-sub": '<m:nary><m:naryPr><m:chr m:val="&#8721;"/></m:naryPr><m:sub>{x}</m:sub><m:sup>{o}</m:sup><m:e>{o}</m:e></m:nary>',
+        "nary-sup": '<m:nary><m:naryPr><m:chr m:val="&#8747;"/></m:naryPr><m:sub>{o}</m:sub><m:sup>{x}</m:sup><m:e>{o}</m:e></m:nary>',
+        "limLow-lim": "<m:limLow><m:e>{o}</m:e><m:lim>{x}</m:lim></m:limLow>", "limLow-e": "<m:limLow><m:e>{x}</m:e><m:lim>{o}</m:lim></m:limLow>",
+        "limUpp-lim": "<m:limUpp><m:e>{o}</m:e><m:lim>{x}</m:lim></m:limUpp>",
+        "acc": '<m:acc><m:accPr><m:chr m:val="&#770;"/></m:accPr><m:e>{x}</m:e></m:acc>', "bar": "<m:bar><m:e>{x}</m:e></m:bar>",
+        "groupChr": "<m:groupChr><m:e>{x}</m:e></m:groupChr>", "box": "<m:box><m:e>{x}</m:e></m:box>", "borderBox": "<m:borderBox><m:e>{x}</m:e></m:borderBox>",
+        "eqArr": "<m:eqArr><m:e>{x}</m:e><m:e>{o}</m:e></m:eqArr>", "m": "<m:m><m:mr><m:e>{x}</m:e><m:e>{o}</m:e></m:mr><m:mr><m:e>{o}</m:e><m:e>{o}</m:e></m:mr></m:m>",
+    }
+    out = []
+    for tpl in shapes.values():
+        x = "<m:r><m:t>x</m:t></m:r>"
+        for _ in range(depth):
+            x = tpl.replace("{x}", x).replace("{o}", one)
+        out.append(f'<m:oMath xmlns:m="{M_NS}">{x}</m:oMath>')
+    return out
+
+
+def f_docx_omml_many_levels_deep(n):
+    return _docx_body("".join(f"<w:p>{eq}</w:p>" for eq in _omml_nested(n)))
+
+
+def f_pptx_omml_many_levels_deep(n):
+    from vlib.gen import ooxml
+    A, P, R_NS, REL_T = ooxml.A, ooxml.P, ooxml.R_NS, ooxml.REL_T
+    paras = "".join(f'<a:p><a14:m xmlns:a14="http://schemas.microsoft.com/office/drawing/2010/main">{eq}</a14:m></a:p>' for eq in _omml_nested(n))
+    parts = {"ppt/slides/slide1.xml": (f'<?xml version="1.0" encoding="UTF-8" standalone="yes"?><p:sld xmlns:a="{A}" xmlns:p="{P}" xmlns:r="{R_NS}"><p:cSld><p:spTree>'
+                                       f'<p:nvGrpSpPr><p:cNvPr id="1" name=""/><p:cNvGrpSpPr/><p:nvPr/></p:nvGrpSpPr><p:grpSpPr/>'
+                                       f'<p:sp><p:nvSpPr><p:cNvPr id="2" name="t"/><p:cNvSpPr/><p:nvPr><p:ph type="body"/></p:nvPr></p:nvSpPr><p:spPr/><p:txBody><a:bodyPr/>'
+                                       + paras + '</p:txBody></p:sp></p:spTree></p:cSld></p:sld>').encode(),
+             "ppt/slides/_rels/slide1.xml.rels": ooxml._rels([]),
+             "ppt/presentation.xml": (f'<?xml version="1.0" encoding="UTF-8" standalone="yes"?><p:presentation xmlns:a="{A}" xmlns:p="{P}" xmlns:r="{R_NS}"><p:sldIdLst><p:sldId id="256" r:id="rIdS1"/></p:sldIdLst>'
+                                      '<p:sldSz cx="9144000" cy="6858000"/></p:presentation>').encode(),
+             "ppt/_rels/presentation.xml.rels": ooxml._rels([("rIdS1", REL_T + "slide", "slides/slide1.xml", None)]),
+             "_rels/.rels": ooxml._rels([("rId1", REL_T + "officeDocument", "ppt/presentation.xml", None)]),
+             "[Content_Types].xml": ooxml._ct(ooxml.IMG_DEFAULTS, {"/ppt/presentation.xml": "application/vnd.openxmlformats-officedocument.presentationml.presentation.main+xml"})}
+    order = ["[Content_Types].xml", "_rels/.rels"] + [k for k in parts if k not in ("[Content_Types].xml", "_rels/.rels")]
+    return "pptx", ooxml._zip(parts, order), sum(len(v) for v in parts.values())
+
+
+def _head_of_meta_fragments(n):
+    # a head of n bytes that never closes a "<meta" it opens: the fragments sit in a comment, a style sheet, a script and an attribute
+    # value; </head> comes after all of it.  Whatever looks for <meta ... charset= must not pay (fragments) x (distance to the next '>')
+    q = n // 4
+    frag = b"<meta " * (q // 6)
+    return (b"<html><head><title>t</title><!-- " + frag + b" --" + b"><style>/* " + frag + b" */</style><script>// " + frag + b"\n</script><link rel=\"x\" title=\"" + frag
+            + b"\"></head><body><p>qb00001z body text</p></body></html>")
+
+
+def f_html_head_many_meta_fragments(n):
+    d = _head_of_meta_fragments(n)
+    return "html", d, len(d)
+
+
+def f_mhtml_head_many_meta_fragments(n):
+    d = (b"MIME-Version: 1.0\r\nContent-Type: multipart/related; boundary=\"BOUNDARY\"; type=\"text/html\"\r\n\r\n--BOUNDARY\r\nContent-Type: text/html; charset=\"utf-8\"\r\n"
+         b"Content-Transfer-Encoding: 8bit\r\nContent-Location: http://example.com/page.html\r\n\r\n" + _head_of_meta_fragments(n) + b"\r\n--BOUNDARY--\r\n")
+    return "mhtml", d, len(d)
+
+
 def f_html_deep_divs(n):
     d = b"<html><body>" + b"<div>" * n + b"x" + b"</div>" * n + b"</body></html>"
     return "html", d, len(d)
@@ -625,6 +700,10 @@ FAMILIES = {
     "odp-entity-many-references": (f_odp_entity_refs, [500, 1_500, 3_500], "count"),
     "odg-entity-many-references": (f_odg_entity_refs, [500, 1_500, 3_500], "count"),
     "epub-entity-many-references": (f_epub_entity_refs, [500, 1_500, 3_500], "count"),
+    "docx-omml-many-levels-deep": (f_docx_omml_many_levels_deep, [8, 16, 32], "size"),
+    "pptx-omml-many-levels-deep": (f_pptx_omml_many_levels_deep, [8, 16, 32], "size"),
+    "html-head-many-meta-fragments": (f_html_head_many_meta_fragments, [60_000, 120_000, 240_000], "size"),
+    "mhtml-head-many-meta-fragments": (f_mhtml_head_many_meta_fragments, [60_000, 120_000, 240_000], "size"),
     "html-deep-divs": (f_html_deep_divs, [200, 400, 800, 1600], "size"),
     "html-unterminated-comments": (f_html_unterminated_comment, [2_000, 4_000, 8_000, 16_000], "size"),
     "html-many-tables": (f_html_many_tables, [1_000, 4_000, 16_000], "size"),
